@@ -5,6 +5,7 @@ import (
 	"encoding/asn1"
 	"fmt"
 	"runtime"
+	"strings"
 	"sync"
 	"time"
 
@@ -290,14 +291,39 @@ func runFaults(r *prng.R, s *out.Sink, tier string) {
 			}
 		}
 	}
-	// --- goroutines started by the calls must have ended ------------------------------------------------------------
+	// --- goroutines of the calls must have ended --------------------------------------------------------------------
+	// (what counts is a goroutine still inside a KeyGen / Sign / Synchronize / wait loop of the library; the clock
+	// goroutine every silent-mode Scheme's box keeps for its lifetime, and the harness's own, do not)
+	stuck := func() (int, string) {
+		buf := make([]byte, 8<<20)
+		buf = buf[:runtime.Stack(buf, true)]
+		n, sample := 0, ""
+		for _, g := range strings.Split(string(buf), "\n\n") {
+			if !strings.Contains(g, "github.com/IBM/TSS/") {
+				continue
+			}
+			for _, pat := range []string{").KeyGen(", ").Sign(", ").Synchronize(", ").waitFor", ").runDKG", ").runSigningProtocol(", ").prepareSigning("} {
+				if strings.Contains(g, pat) {
+					n++
+					if sample == "" {
+						sample = g
+					}
+					break
+				}
+			}
+		}
+		return n, sample
+	}
 	deadlineG := time.Now().Add(6 * time.Second)
-	for runtime.NumGoroutine() > base+12 && time.Now().Before(deadlineG) {
+	n, sample := stuck()
+	for n > 0 && time.Now().Before(deadlineG) {
 		time.Sleep(50 * time.Millisecond)
+		n, sample = stuck()
 	}
 	s.Extra["goroutines_before"] = base
 	s.Extra["goroutines_after"] = runtime.NumGoroutine()
-	if g := runtime.NumGoroutine(); g > base+40 {
-		s.Violate("C11", fmt.Sprintf("%d goroutines are still alive 6 s after all calls returned (baseline %d): something stays blocked", g, base), "")
+	s.Extra["library_call_goroutines_left"] = n
+	if n > 0 {
+		s.Violate("C11", fmt.Sprintf("%d goroutines are still inside a KeyGen / Sign / Synchronize of the library 6 s after all calls returned: something stays blocked", n), trunc(sample, 3000))
 	}
 }
